@@ -124,6 +124,50 @@ func ZZ_C11_alias() {
 		s0 := zzSnapMsg(d)
 		in[rt.Choice("i", len(in))] ^= x
 		zzSameSnap(zzSnapMsg(d), s0, "decoder-input")
+	case 10: // system bytes arguments that are windows into a larger buffer (spare capacity)
+		frame := rt.Bytes("frame", 20)
+		k := rt.Choice("k", 6) // argument length 0..5
+		arg := frame[10 : 10+k]
+		m0 := ast.NewDataMessage("n", st, fn, 0, "H->E", item)
+		m1 := m0.SetSessionIDAndSystemBytes(sid, arg)
+		m2 := ast.NewHSMSDataMessage("n", st, fn, wb, "H->E", item.FillVariables(map[string]interface{}{"v": 1}), sid, arg)
+		before := append([]byte{}, frame...)
+		s1, s2 := zzSnapMsg(m1), zzSnapMsg(m2)
+		// the constructors must not have written into the caller's buffer either
+		rt.Assert(rt.BytesEq(frame, before), "window-arg:buffer-untouched")
+		frame[rt.Choice("i", 20)] ^= x
+		zzSameSnap(zzSnapMsg(m1), s1, "window-arg:set-session")
+		zzSameSnap(zzSnapMsg(m2), s2, "window-arg:constructor")
+		d := m1.SetWaitBit(false).FillVariables(map[string]interface{}{"v": 2})
+		sd := zzSnapMsg(d)
+		frame[10] ^= x
+		zzSameSnap(zzSnapMsg(d), sd, "window-arg:derived")
+	case 11: // histories: observe, derive, observe again (caches filled by an observer must not be shared with derived messages)
+		m0 := ast.NewHSMSDataMessage("n", st, fn, wb, "H->E", item.FillVariables(map[string]interface{}{"v": 1}), sid, sys)
+		t0 := ast.NewDataMessage("t", st, fn, 2, "H->E", item)
+		pool := []*ast.DataMessage{m0, t0}
+		snaps := []zzSnap{zzSnapMsg(m0), zzSnapMsg(t0)}
+		for step := 0; step < rt.Param("h"); step++ {
+			src := pool[rt.Choice(rt.N("src", step), len(pool))]
+			var nm *ast.DataMessage
+			switch rt.Choice(rt.N("op", step), 4) {
+			case 0:
+				nm = src.SetSessionIDAndSystemBytes(int(rt.Uint16(rt.N("nsid", step))), rt.Bytes(rt.N("nsys", step), 4))
+			case 1:
+				nm = src.SetWaitBit(false)
+			case 2:
+				nm = src.FillVariables(map[string]interface{}{"v": int16(rt.Int16(rt.N("nv", step)))})
+			case 3:
+				src.ToBytes()
+				_ = src.String()
+				nm = src.SetSessionIDAndSystemBytes(int(rt.Uint16(rt.N("nsid", step))), rt.Bytes(rt.N("nsys", step), 4)).SetWaitBit(false)
+			}
+			pool = append(pool, nm)
+			snaps = append(snaps, zzSnapMsg(nm))
+			for i, p := range pool {
+				zzSameSnap(zzSnapMsg(p), snaps[i], "history")
+			}
+		}
 	case 9: // control messages: header argument, ToBytes result, decoder input
 		hdr := rt.Bytes("hdr", 10)
 		cm := ast.NewHSMSControlMessage(hdr)
